@@ -299,4 +299,13 @@ def handwritten():
         scs=[("A", False), ("B", True)], eofs=[[1], [3], []],
         layout=[["eof", 1], ["rule", 1], ["rule", 2], ["eof", 2], ["rule", 3], ["rule", 4], ["eof", 3]],
         name="hw-eof-bol"))
+    # the textually identical bracket expression inside and outside a (?i: / (?-i: group: the set it denotes depends on the
+    # case scope it is written in, not on its text (a generator that shares classes by their source text confuses them)
+    hexd = lambda: P.ccl([P.cr(48, 57), P.cr(97, 102)]); xz = lambda: P.ccl([P.cr(120, 122)])
+    out.append(ruleset([
+        rule(P.cat(L("0x"), P.grp(P.plus(hexd()), i=1))), rule(P.plus(hexd())), rule(P.grp(xz(), i=1)), rule(xz()),
+        rule(P.alt(P.dot(), c(10)))], name="hw-ccl-scope"))
+    out.append(ruleset([
+        rule(P.cat(L("0x"), P.plus(hexd()))), rule(P.grp(P.plus(hexd()), i=1)), rule(xz()), rule(P.cat(L("-"), P.grp(xz(), i=1))),
+        rule(P.alt(P.dot(), c(10)))], name="hw-ccl-scope-rev"))
     return out
